@@ -170,15 +170,17 @@ structure Out where
   writes : List (Bytes × Bytes)   -- (id, content) in the order the objects are written
   id     : Bytes                  -- id of this tree
 
+/-- what one item contributes: the objects written for it (none for a file) and its serialized entry;
+    `rec` is the recursive call for a sub-directory -/
+def part (rec : List Entry → Out) : Item → List (Bytes × Bytes) × Bytes
+  | .leaf n i => ([], TreeCodec.encodeEntry TreeCodec.modeFile n i)
+  | .dir d sub => ((rec sub).writes, TreeCodec.encodeEntry TreeCodec.modeDir d (rec sub).id)
+
 /-- `writeTreeObject`: sub-trees are written when their run closes, the parent last -/
 def write (H : HashFn) : Nat → List Entry → Out
   | 0, _ => ⟨[], []⟩
   | fuel + 1, es =>
-    let parts : List (List (Bytes × Bytes) × Bytes) := (group [] [] es).map fun
-      | .leaf n i => ([], TreeCodec.encodeEntry TreeCodec.modeFile n i)
-      | .dir d sub =>
-        let o := write H fuel sub
-        (o.writes, TreeCodec.encodeEntry TreeCodec.modeDir d o.id)
+    let parts := (group [] [] es).map (part (write H fuel))
     let data := (parts.map (·.2)).flatten
     let content := Obj.encode .tree data
     ⟨(parts.map (·.1)).flatten ++ [(H.sha content, content)], H.sha content⟩
